@@ -178,6 +178,14 @@ def check_linearity(case, r: R):
             with r.lib('passive_network'):
                 rn = trf.passive_network(N, keep=keep)
             if rn is not None and rn.node_zero_label == net['ref']:
+                # contraction may leave two parallel shorts behind (electrically exact, C16): that network has a
+                # zero-impedance loop, individual currents are indeterminate and the float solver falls back to zeros
+                by_id = {b['id']: b for b in pnet['branches']}
+                left_spec = {'ref': rn.node_zero_label, 'branches': [dict(by_id[b.id], n1=b.node1, n2=b.node2) for b in rn.branches if b.id in by_id]}
+                if len(left_spec['branches']) != len(rn.branches) or rs.solve(left_spec) is None:
+                    r.cls('removal-route-result-not-uniquely-solvable')
+                    rn = None
+            if rn is not None and rn.node_zero_label == net['ref']:
                 r.cls('removal-route-compared')
                 rsol = None
                 with r.lib('solve-removed'):
